@@ -2,8 +2,8 @@ SPECIFICATION Spec
 VIEW view
 CONSTANTS
   OffsMod = 65536
-  Atoms <- AtomsTok
-  Heads <- HeadsTok
+  Atoms <- AtomsSel
+  Sel = "tok"
   MaxLen = 40
   Cfgs <- CfgsFL
   Junk = 34
